@@ -108,7 +108,7 @@ TABLE = {
 
 # obligations added while testing the checks against independent seeded changes and generated sweeps (DESIGN.md 11.5-11.9)
 ADDED = {
-    "C01": "failures raised on the trio thread hop into the loop thread only through thread-safe primitives; the runner mapping is emptied on EVERY exit of the supervising coroutine (graceful stop, failure, interrupt, cancellation); the task registry is a strong container whose entries are removed only by the monitor of the finished task; OrphanedReturn's constructor is total; the termination rules of C02 (supervisor, close-all, runner shutdown) hold; accept() lets a failure of the meta runner's run() pass unchanged -- also one of a class its own handlers name -- and never runs the runtime a second time (O1.7); the event loop's own call_soon / call_later / create_task are called only in the loop's context (a payload thread must use call_soon_threadsafe); every queued / adopted payload reaches exactly one runner -- the flush of the pre-start queue hands over ALL queued payloads, the trio submit channel tolerates shutdown, is written only by the trio run and is never used as a context manager outside it (O3.1 / O3.5 shared with C03); no handler on the failure chain formats the exception it caught eagerly (O1.13); every set_exception behind a synchronous payload monitor tests the failure for StopIteration first (O1.14, library fact: asyncio.Future.set_exception refuses it); a failing adopt step leaves the service sweep by raising (O3.7 shared with C03); what a StopIteration is replaced by is interpreted: the future is handed ANOTHER exception that carries the StopIteration as its cause",
+    "C01": "failures raised on the trio thread hop into the loop thread only through thread-safe primitives; the runner mapping is emptied on EVERY exit of the supervising coroutine (graceful stop, failure, interrupt, cancellation); the task registry is a strong container whose entries are removed only by the monitor of the finished task; OrphanedReturn's constructor is total; the termination rules of C02 (supervisor, close-all, runner shutdown) hold; accept() lets a failure of the meta runner's run() pass unchanged -- also one of a class its own handlers name -- and never runs the runtime a second time (O1.7); the event loop's own call_soon / call_later / create_task are called only in the loop's context (a payload thread must use call_soon_threadsafe); every queued / adopted payload reaches exactly one runner -- the flush of the pre-start queue hands over ALL queued payloads, the trio submit channel tolerates shutdown, is written only by the trio run and is never used as a context manager outside it (O3.1 / O3.5 shared with C03); no handler on the failure chain formats the exception it caught eagerly (O1.13); every monitor -- synchronous or coroutine -- that catches what the CALL of the payload raises and hands it to Future.set_exception is interpreted with a call that raises StopIteration (O1.14, library fact: asyncio.Future.set_exception refuses it; PEP 479 only converts a StopIteration that leaves a coroutine frame); a failing adopt step leaves the service sweep by raising (O3.7 shared with C03); what a StopIteration is replaced by is interpreted: the future is handed ANOTHER exception that carries the StopIteration as its cause",
     "C02": "a KeyboardInterrupt at the join is absorbed after close-all; the final join of close-all waits for ALL runner tasks (gather with return_exceptions=True / wait ALL_COMPLETED); no polling or looping over payload threads; the submit channel is not cloned; BaseRunner.run clears the stopped flag before managing payloads and sets it on every exit, stop() reads that flag; close-all waits for each runner's aclose() without a deadline (no wait_for(..., timeout) / asyncio.timeout around it); own coroutines only aclose awaits are part of aclose; the aclose routing of the trio runner is resolved through local aliases and local functions; runners are stopped and closed in launch order, one whose aclose() waits for its payloads (asyncio) after those that only signal (trio) (O2.8); the runner mapping is emptied only after the runners are closed and joined; the snapshot of the task registry the asyncio close loop ranges over is taken inside the loop (a task adopted after a snapshot taken once is never cancelled); synchronous helpers only the close path calls are part of it",
     "C03": "argument binding does not depend on a forked condition over the argument values; the hand-over channel is unbounded; only the trio run writes channel / token; nothing on the registration chain formats the payload eagerly (a raising __repr__ must not escape from adopt); the unit registry is a weakref.WeakSet; O3.10 the queue-or-register decision is atomic with the switch to direct registration (OPEN KNOWN FINDING on the current tree, see known_findings.json); a failing adopt step leaves the service sweep by raising; the runner mapping is emptied only after close-all has closed and joined the runners (O2.1 / O2.2 shared with C02); the shutdown request flag is written only in __init__ (False), at the start of accept (False) and in shutdown (True), and accept itself adopts the sweep, so every run sweeps the services (O3.7, shared with C12); the submit channel is not used as a context manager outside the trio run (library fact: MemorySendChannel.__exit__ closes); the unit registry (a WeakSet) is copied in one C-level step over its backing set, never by iterating the WeakSet itself; each flushed queue is emptied before the next one is registered; O3.11 the in-thread fallback of the trio runner compares the current trio token with the runner's before it touches the channel (OPEN KNOWN FINDING, library fact: trio.from_thread.run refuses in any thread that runs a trio task)",
     "C04": "the published __signature__ is exactly one leading parameter plus the raw class's own parameters (other sources, an inverted guard or a dead guard count as not published); the reduce idiom of the pool branch folds right to left; Partial.__init__ / __call__ take no named parameter besides (ctor, *args, __leaf__, **kwargs) / (*args, **kwargs); a signature published only under an extra condition (`signature is not None and signature.parameters`) counts as hidden for the classes the condition excludes; the constructor's signature is taken without options (follow_wrapped=False checks a decorated constructor against (*args, **kwargs)); no handler around a construct call / >> binding translates or swallows the constructor's own exception (O4.9)",
